@@ -115,6 +115,14 @@ pub fn install_panic_hook() {
                 let f = l.file();
                 // strip to repo-relative, drop line numbers (stable across unrelated edits)
                 let f = f.strip_prefix("/repo/").unwrap_or(f);
+                // third-party crates: keep "<crate>-<ver>/src/..." only
+                let f = match f.find("/registry/src/") {
+                    Some(p) => {
+                        let rest = &f[p + "/registry/src/".len()..];
+                        rest.split_once('/').map(|x| x.1).unwrap_or(rest)
+                    }
+                    None => f,
+                };
                 f.to_string()
             })
             .unwrap_or_default();
@@ -447,11 +455,11 @@ fn worker_main(builder: SpaceBuilder, tier: Tier, k: usize, n: usize, space: &st
     let sp = builder(space, arg, tier);
     let len = sp.len();
     let out = std::io::stdout();
-    let mut j = startj;
-    loop {
-        let idx = k as u64 + j * n as u64;
-        if idx >= len {
-            break;
+    let mut idx = startj;
+    while idx < len {
+        if owner(idx, n) != k {
+            idx += 1;
+            continue;
         }
         {
             let mut o = out.lock();
@@ -464,8 +472,16 @@ fn worker_main(builder: SpaceBuilder, tier: Tier, k: usize, n: usize, space: &st
             let _ = writeln!(o, "R\t{}", result_json(idx, &*sp, &r, false));
             let _ = o.flush();
         }
-        j += 1;
+        idx += 1;
     }
+}
+
+/// which worker runs case `i`: a hash, so that slow regions of a product space are spread evenly
+pub fn owner(i: u64, n: usize) -> usize {
+    let mut z = i.wrapping_add(0x9E3779B97F4A7C15);
+    z = (z ^ (z >> 30)).wrapping_mul(0xBF58476D1CE4E5B9);
+    z = (z ^ (z >> 27)).wrapping_mul(0x94D049BB133111EB);
+    ((z ^ (z >> 31)) % n as u64) as usize
 }
 
 impl Check {
@@ -500,7 +516,7 @@ impl Check {
                 let mut startj: u64 = 0;
                 let mut restarts = 0u32;
                 loop {
-                    if k as u64 + startj * n as u64 >= len {
+                    if startj >= len {
                         break;
                     }
                     let mut child = match Command::new(&exe)
@@ -572,7 +588,7 @@ impl Check {
                                     }
                                     absorb(&mut shared.lock().unwrap(), &name, &arg, &v, len);
                                     done_cases.fetch_add(1, Ordering::Relaxed);
-                                    startj = (idx - k as u64) / n as u64 + 1;
+                                    startj = idx + 1;
                                 }
                                 Err(e) => errs.lock().unwrap().push(format!("bad worker line: {e}")),
                             }
@@ -601,7 +617,7 @@ impl Check {
                         let v = json!({"i": idx, "nt": true, "o": 0, "v": [{"s": how, "d": "process-level failure attributed to this case"}], "needdesc": true});
                         absorb(&mut shared.lock().unwrap(), &name, &arg, &v, len);
                         done_cases.fetch_add(1, Ordering::Relaxed);
-                        startj = (idx - k as u64) / n as u64 + 1;
+                        startj = idx + 1;
                         restarts += 1;
                         if restarts > 2000 {
                             errs.lock().unwrap().push("too many worker restarts".into());
@@ -610,7 +626,7 @@ impl Check {
                     } else {
                         // clean end (or died between cases)
                         let ok = status.as_ref().map(|s| s.success()).unwrap_or(false);
-                        if !ok && k as u64 + startj * (n as u64) < len {
+                        if !ok {
                             errs.lock().unwrap().push(format!("worker {k} died between cases: {:?}", status));
                             return;
                         }
